@@ -298,7 +298,13 @@ func (_this *Decoder) decodeArray(arrayType events.ArrayType, eventReceiver even
 }
 
 func (_this *Decoder) decodeMedia(eventReceiver events.DataEventReceiver) {
-	mediaTypeLength := _this.reader.readSmallULEB128("media type length", 0xffffffff)
+	// The media type is read into memory before anything can validate it, so its length
+	// field must not be trusted beyond the configured array size limit.
+	maxMediaTypeLength := uint64(0xffffffff)
+	if limit := _this.config.Rules.MaxArraySizeBytes; limit > 0 && limit < maxMediaTypeLength {
+		maxMediaTypeLength = limit
+	}
+	mediaTypeLength := _this.reader.readSmallULEB128("media type length", maxMediaTypeLength)
 	mediaType := string(_this.reader.ReadBytes(int(mediaTypeLength)))
 	elementBitWidth := 8
 	eventReceiver.OnMediaBegin(mediaType)
